@@ -147,6 +147,29 @@ def obs_sig(v):
                 expected=(d.get("expected") or {}).get("t"), got=(d.get("got") or {}).get("t"))
 
 
+def waker_policy(beh, both=None):
+    """The first record of an obs behaviour (`New`) carries the driver's waker policy in its spare field n: 0 = every poll
+    uses a fresh waker, 1 = a subscriber is always polled with the same waker (what an executor does; exercises
+    `will_wake`-style shortcuts).  Alternate by line; lines [both[0], both[1]) (complete trees) are run under both.
+    Returns the new number of behaviours."""
+    tmp = beh + ".tmp"
+    n = 0
+    lo, hi = both if both else (0, 0)
+    with open(beh) as f, open(tmp, "w") as o:
+        for i, line in enumerate(f):
+            line = line.strip()
+            if not line:
+                continue
+            b = json.loads(line)
+            pols = (0, 1) if lo <= i < hi else (i % 2,)
+            for pol in pols:
+                b[0]["n"] = pol
+                o.write(json.dumps(b, separators=(",", ":")) + "\n")
+                n += 1
+    os.replace(tmp, beh)
+    return n
+
+
 def obs_pipeline(prop, tier, seed, work, t0, flavor="sync"):
     quick = tier == "quick"
     handles = prop in ("C03", "C19")
@@ -163,7 +186,8 @@ def obs_pipeline(prop, tier, seed, work, t0, flavor="sync"):
     beh = os.path.join(work, "beh.ndjson")
     n = 0
     spec = "SpecHandles" if handles else "Spec"
-    gconst = dict(OBS_MC, Depth=(6 if prop == "C02" else 5) if quick else 7 if prop == "C02" else 6)
+    wake_range = None
+    gconst = dict(OBS_MC, Depth=5 if quick else 6)
     if handles:
         gconst.update(OwnerIds={1, 2, 3}, WeakIds={1, 2}, GuardIds={1})
     c = os.path.join(work, "GenEdge.cfg")
@@ -182,9 +206,10 @@ def obs_pipeline(prop, tier, seed, work, t0, flavor="sync"):
     if prop in ("C01", "C02"):
         # complete tree over the wake / readiness core (all paths: clone vs subscribe, reset, re-poll ...)
         c = os.path.join(work, "GenWake.cfg")
-        write_cfg(c, spec="SpecWake", constants=dict(OBS_MC, NV=2, Depth=5 if quick else 6, Kinds={"shared"} if seed % 2 else {"unique"}),
+        write_cfg(c, spec="SpecWakeSub", constants=dict(OBS_MC, NV=2, Depth=6 if quick else 7, Kinds={"shared"} if seed % 2 else {"unique"}),
                   constraints=["BoundTree"], invariants=["PrintAtDepth"])
         k, _ = gen_behaviours("GenObs", c, work, beh, "tree", tag="wake", workers=12, timeout=1500)
+        wake_range = (n, n + k)
         n += k
         log("gen wake tree: %d" % k)
     c = os.path.join(work, "GenSim.cfg")
@@ -195,6 +220,7 @@ def obs_pipeline(prop, tier, seed, work, t0, flavor="sync"):
                           timeout=1500)
     n += k
     log("gen sim: %d" % k)
+    n = waker_policy(beh, wake_range if prop == "C02" else None)
     # ---- 3. run on the real code
     trace = os.path.join(work, "trace.ndjson")
     hrc = run_harness(["obs-replay" if flavor == "sync" else "obs-async-replay", beh, trace, "--nv", "3"])
@@ -445,10 +471,13 @@ def vec_pipeline(prop, tier, seed, work, t0):
              ("SpecTxnSmall", dict(pre, Caps={16}, Depth=6 if quick else 7), "edge"),
              ("SpecTxnCore", dict(pre, Caps={16}, Depth=8 if quick else 9), "edge"),
              ("SpecTxnCore", dict(pre, Caps={1}, Depth=7 if quick else 8, InitLens={1}), "edge"),
-             ("SpecTxnCore", dict(pre, Caps={16}, Depth=6 if quick else 7, PreSubs={2}), "tree")],
+             ("SpecTxnCore", dict(pre, Caps={16}, Depth=6 if quick else 7, PreSubs={2}), "tree"),
+             ("SpecTxnSubs", dict(pre, Caps={16}, Depth=5 if quick else 6, InitLens={1}, PreSubs={1, 2}), "tree")],
         C08=[("SpecStreams", dict(Caps={1, 2}, Depth=6 if quick else 7, SubIds={1}, MaxLen=2), "edge"),
              ("SpecStreamsPre", dict(pre, Caps={1, 2}, Depth=4 if quick else 5), "edge"),
-             ("SpecLag", dict(pre, Caps={1, 2, 8}, Depth=6 if quick else 7, InitLens={1}, PreSubs={2}), "tree")],
+             ("SpecEnd", dict(pre, Caps={1, 2, 8}, Depth=6 if quick else 7, InitLens={1}, PreSubs={2}, MaxLen=6), "tree"),
+             ("SpecLag", dict(pre, Caps={1, 2} if quick else {1, 2, 8}, Depth=4 if quick else 6, InitLens={1}, PreSubs={2}), "tree"),
+             ("SpecTxnSubs", dict(pre, Caps={2}, Depth=5 if quick else 6, InitLens={1}, PreSubs={1, 2}), "tree")],
         C17=[("SpecMut", dict(Caps={16}, Depth=4 if quick else 5, MaxLen=3, SubIds={1}), "edge")],
     )
     for j, (spec, over, mode) in enumerate(plans[prop]):
@@ -846,7 +875,8 @@ def vecops_pipeline(prop, tier, seed, work, t0):
     extra = dict(cases=st[1], cases_where_apply_must_panic=st[2], cases_with_effective_change=st[3],
                  exhaustive=True,
                  exhaustive_domain="all vectors of length <= %d over %d values x all diffs of the 11 kinds with every index up to 2 beyond "
-                                   "the end x 4 mappings; plus %d random cases with lengths <= 40" % (consts["MaxL"], len(consts["Vals"]), consts["NRandom"]),
+                                   "the end x 4 mappings; plus %d random cases with lengths <= 40; plus every diff kind with boundary indices on vectors of "
+                                   "length 1, 63, 64, 65, 66, 129, 200 (imbl representation changes) in three internal shapes" % (consts["MaxL"], len(consts["Vals"]), consts["NRandom"]),
                  mc_config="ASSUME MCCommute: the law holds on VecOps.tla's own Apply/MapDiff for the exhaustive domain")
     mc = dict(distinct=max(n, 1), generated=max(n, 1))
 
@@ -893,7 +923,8 @@ def tokens_pipeline(prop, tier, seed, work, t0):
     for j, (spec, over, mode) in enumerate([("SpecStreams", dict(Caps={1, 2}, Depth=5 if quick else 6), "edge"),
                                             ("SpecTxn", dict(Caps={1, 16}, Depth=5 if quick else 6, SubIds={1}), "edge"),
                                             ("SpecTxnCore", dict(Caps={16}, Depth=6 if quick else 7, InitLens={2}, PreSubs={2}, MaxLen=4), "tree"),
-                                            ("SpecLag", dict(Caps={1, 2}, Depth=5 if quick else 6, InitLens={1}, PreSubs={2}, MaxLen=4), "tree")]):
+                                            ("SpecLag", dict(Caps={1, 2}, Depth=5 if quick else 6, InitLens={1}, PreSubs={2}, MaxLen=4), "tree"),
+                                            ("SpecTxnSubs", dict(Caps={16}, Depth=5 if quick else 6, InitLens={1}, PreSubs={1, 2}, MaxLen=4), "tree")]):
         c = os.path.join(work, "GenVec%s%d.cfg" % (mode, j))
         if mode == "edge":
             write_cfg(c, spec=spec, constants=dict(base, **over), view="View", constraints=["Bound"], action_constraints=["Edge"])
@@ -1257,9 +1288,10 @@ def async_pipeline(prop, tier, seed, work, t0):
     n += k
     log("gen sync-spec edge: %d" % k)
     c = os.path.join(work, "GenWake.cfg")
-    write_cfg(c, spec="SpecWake", constants=dict(OBS_MC, NV=2, Depth=5 if quick else 6, Kinds={"shared"} if seed % 2 else {"unique"}),
+    write_cfg(c, spec="SpecWakeSub", constants=dict(OBS_MC, NV=2, Depth=6 if quick else 7, Kinds={"shared"} if seed % 2 else {"unique"}),
               constraints=["BoundTree"], invariants=["PrintAtDepth"])
     k, _ = gen_behaviours("GenObs", c, work, beh, "tree", tag="wake", workers=12, timeout=1500)
+    wake_range = (n, n + k)
     n += k
     log("gen sync-spec wake tree: %d" % k)
     c = os.path.join(work, "GenSim.cfg")
@@ -1282,6 +1314,7 @@ def async_pipeline(prop, tier, seed, work, t0):
     k, _ = gen_behaviours("GenObsAsync", c, work, beh, "sim", num=300 if quick else 20000, depth=41, seed=seed, tag="asim", timeout=1500)
     n += k
     log("gen async sim: %d" % k)
+    n = waker_policy(beh, wake_range)
     trace = os.path.join(work, "trace.ndjson")
     hrc = run_harness(["obs-async-replay", beh, trace, "--nv", "3"])
     c = os.path.join(work, "TraceObsAsync.cfg")
